@@ -419,6 +419,17 @@ func absentStep(m *tm.Value, rnd *lcg) (generic.Path, string, bool) {
 			}
 			return generic.NewPathBinKey([]byte{0}), "map", true
 		}
+		if (m.KT == tm.BYTE || m.KT == tm.I16 || m.KT == tm.I32) && rnd.n(3) == 0 {
+			// an integer outside the key type's range that is congruent to a present key modulo 2^width: no such key
+			k := m.Keys[rnd.n(len(m.Keys))]
+			width := map[tm.Kind]uint{tm.BYTE: 8, tm.I16: 16, tm.I32: 32}[m.KT]
+			v := k.I
+			if m.KT == tm.BYTE {
+				v = int64(uint8(k.I))
+			}
+			v += []int64{1, -1, 2, 3}[rnd.n(4)] << width
+			return generic.NewPathIntKey(int(v)), "map-key-out-of-range", true
+		}
 		for i := 0; i < 8; i++ {
 			k := m.Keys[rnd.n(len(m.Keys))].Clone()
 			switch k.K {
@@ -982,7 +993,7 @@ var genCfg = tm.GenCfg{MaxDepth: 4, BigSizes: true, BigIDs: true, WireOrder: tru
 
 var Prop = pbt.Register(pbt.Prop[Case]{
 	Name: "TestReads",
-	Rule: "generated IDL universe (structs with ids 1..32767 in any wire order, list/set/map with string/int/double/bool/struct keys, binary, aliases, recursion) + conforming value encoded by the reference codec with a span table; every read API (GetByPath id/name/bin-key variants, Field/FieldByName/Index/GetByStr/GetByInt/GetByRaw chains, Foreach/ForeachKV, GetMany/GetTree with dirty slots, Children, Interface/List/*Map) on Node and Value compared with the span table; absent and wrong-kind paths must give error results; options drawn per case; non-trivial = depth >= 2 and a container with >= 2 children",
+	Rule: "generated IDL universe (structs with ids 1..32767 in any wire order, list/set/map with string/int/double/bool/struct keys, binary, aliases, recursion) + conforming value encoded by the reference codec with a span table; every read API (GetByPath id/name/bin-key variants, Field/FieldByName/Index/GetByStr/GetByInt/GetByRaw chains, Foreach/ForeachKV, GetMany/GetTree with dirty slots, Children, Interface/List/*Map) on Node and Value compared with the span table; absent and wrong-kind paths (incl. integer keys outside the key type's range that are congruent to a present key) must give error results; options drawn per case; non-trivial = depth >= 2 and a container with >= 2 children",
 	Gen: func(t *rapid.T) Case {
 		u := tm.GenUniverse(t, genCfg)
 		v := tm.GenValue(t, u, u.Root, genCfg)
